@@ -122,4 +122,32 @@ theorem fn_wantWrite (s : S) (now : Int) :
   | nil => simp [pure, Except.pure]
   | cons p rest => simp [pure, Except.pure]
 
+/-! ### `Client.ack` (manual acknowledgement) -/
+
+/-- the calls `ack()` makes, executed on the model -/
+def runAck (s : S) : MEff → S
+  | .call "_send_puback" [m] => (s.sendPuback m.toNat).1
+  | .call "_send_pubcomp" [m] => (s.sendPubcomp m.toNat).1
+  | _ => s
+
+/-- **`Client.ack(mid, qos)` as the source has it now = the model's `ack`**: with manual acknowledgement on, QoS 1 sends PUBACK and
+QoS 2 sends PUBCOMP for that id (the result of the send is returned); in every other case nothing is sent and the call
+returns success (C03: `c03_manual` - no PUBACK / PUBCOMP is queued by anything but `ack()`) -/
+theorem fn_ack (s : S) (mid qos : Nat) (now : Int) :
+    ∃ rc effs, Gen.Fn.LoopRc.ack s.cfg.manualAck now (mid : Int) (qos : Int) (s.sendPuback mid).2 (s.sendPubcomp mid).2 = .ok (rc, effs) ∧
+      (effs.foldl runAck s).emit (.ret rc none) = s.ack mid qos := by
+  unfold Gen.Fn.LoopRc.ack S.ack
+  by_cases hm : s.cfg.manualAck = true
+  · by_cases h1 : qos = 1
+    · subst h1
+      exact ⟨(s.sendPuback mid).2, [.call "_send_puback" [(mid : Int)]], by simp [hm, pure, Except.pure, bind, Except.bind], by simp [hm, runAck]⟩
+    · by_cases h2 : qos = 2
+      · subst h2
+        exact ⟨(s.sendPubcomp mid).2, [.call "_send_pubcomp" [(mid : Int)]], by simp [hm, pure, Except.pure, bind, Except.bind], by simp [hm, runAck]⟩
+      · have e1 : ((qos : Int) == 1) = false := by rw [beq_eq_false_iff_ne]; omega
+        have e2 : ((qos : Int) == 2) = false := by rw [beq_eq_false_iff_ne]; omega
+        exact ⟨0, [], by simp [hm, e1, e2, pure, Except.pure, bind, Except.bind], by simp [hm, h1, h2, rcSuccess]⟩
+  · have hm' : s.cfg.manualAck = false := by simpa using hm
+    exact ⟨0, [], by simp [hm', pure, Except.pure, bind, Except.bind], by simp [hm', rcSuccess]⟩
+
 end Paho.FnEq
